@@ -179,7 +179,8 @@ def _run(ka, wa, kb, wb, kc, wc, f1, m1, f2, m2, f3, fan, role, is_port, via=Fal
          args="ka: int, wa: int, kb: int, wb: int, kc: int, wc: int, f1: bool, m1: bool, f2: bool, m2: bool, f3: bool, fan: bool, role: int, is_port: bool, via: bool",
          pre=[f"0 <= ka < {KINDS}", f"0 <= kb < {KINDS}", f"0 <= kc < {KINDS}", "1 <= wa", "1 <= wb", "1 <= wc", "0 <= role <= 2"],
          tiers={"quick": {"timeout": 170, "pre": ["wa <= 2 and wb == 1 and wc == 1", "kb == kc or kb == 0", "m1 == False or f1 == False", "m2 == False", "via == False or (is_port == True and f2 == False and f3 == False and m1 == False)"],
-                          "parts": parts_product(parts_over("ka", range(KINDS)), [("port", "is_port == True"), ("int", "is_port == False and role == 0 and f1 == False and f2 == False and f3 == False")])},
+                          "parts": parts_product(parts_over("ka", range(KINDS)), [("port_r0", "is_port == True and role == 0"), ("port_r1", "is_port == True and role == 1"), ("port_r2", "is_port == True and role == 2"),
+                                                                                   ("int", "is_port == False and role == 0 and f1 == False and f2 == False and f3 == False")])},
                 "thorough": {"timeout": 600, "pre": ["wa <= 3 and wb <= 2 and wc <= 3", "via == False or is_port == True"],
                              "parts": parts_product(parts_over("ka", range(KINDS)), parts_over("kb", range(KINDS)), parts_over("kc", range(KINDS)),
                                                     [("port_r0", "is_port == True and role == 0"), ("port_r1", "is_port == True and role == 1"), ("port_r2", "is_port == True and role == 2"),
